@@ -1671,8 +1671,38 @@ class SchedFamily:
         raise Infra("session interleavings are replayed by re-running the check with the recorded seed")
 
 
+class ElectionProofFamily:
+    """C05 on the specification, unbounded in the number of announcements and in the ids: Apalache discharges the base case and the
+    induction step of the inductive invariant of GribiElectionInd (a verdict about the design only; the binding is the other parts')."""
+    FAMILY = "electionproof"
+
+    def __init__(self, prop):
+        self.prop = prop
+
+    def run(self, ctx):
+        res = Result()
+        n = 3 if ctx.tier == "quick" else 6
+        txt = open(os.path.join(vlib.SPEC, "GribiElectionInd.tla")).read().replace("Gen(6)", f"Gen({n})")
+        recs = []
+        for label, args in (("base", ["--cinit=CInit", "--init=Init", "--inv=IndInv", "--length=0"]),
+                            ("step", ["--cinit=CInit", "--init=IndInit", "--inv=IndInv", "--length=1"])):
+            ok, secs, tail = vlib.apalache(ctx, txt, "GribiElectionInd", args, "apalache-" + label)
+            if not ok:
+                raise Infra(f"GribiElectionInd: the {label} case of the inductive invariant does not hold (a defect of the specification, not a verdict about the code):\n" + tail)
+            recs.append({"module": "GribiElectionInd", "tool": "apalache-mc 0.58", "case": label, "args": " ".join(args), "gen_bound": n, "secs": secs})
+        res.coverage = {"states": 0, "transitions": 0, "traces_validated_against_impl": 0, "evaluations": 0, "distinct_nontrivial": 0,
+                        "rule": "no case of the implementation: inductive invariant (ElecIsMax, PrimaryAnnouncedIt) of the election core discharged by Apalache "
+                                f"for unbounded ids and any number of announcements, the induction step from an arbitrary state with at most {n} announced ids",
+                        "samples": [], "proof_obligations": recs}
+        res.assumptions = ["Apalache's Gen bound limits the number of distinct announced ids in the arbitrary pre-state of the induction step"]
+        return res
+
+    def replay(self, ctx, path):
+        raise Infra("nothing to replay")
+
+
 for _p in ("C04", "C05"):
-    REGISTRY[_p] = CompositeFamily(_p, [REGISTRY[_p], SchedFamily(_p)])
+    REGISTRY[_p] = CompositeFamily(_p, [REGISTRY[_p], SchedFamily(_p)] + ([ElectionProofFamily(_p)] if _p == "C05" else []))
 
 
 # ---------------------------------------------------------------------------
